@@ -162,10 +162,11 @@ def replay_cases(cases):
 
 
 def record_random(args):
-    seed, catalogue = args
+    seed, catalogue = args[:2]
+    force = args[2] if len(args) > 2 else None
     rnd = random.Random(seed)
     try:
-        o, meta = PX.random_lens(rnd, catalogue=catalogue)
+        o, meta = PX.random_lens(rnd, catalogue=catalogue, force=force)
     except Exception as ex:
         return {"error": "build: %s: %s" % (type(ex).__name__, ex), "seed": seed}
     return _record(o, "seed %d %s" % (seed, meta), seed=seed)
@@ -355,6 +356,9 @@ def main(ctx):
     # ---- code -> spec recording and judging run next to the model-checking phase ----------------
     nrand = 60 if quick else 800
     rtasks = [(ctx.seed * 104729 + i, i % 6 == 5) for i in range(nrand)]
+    # directed corner of the quantifier: object NA with an immersed finite object (n0 sin(theta))
+    rtasks += [(ctx.seed * 104729 + 100000 + i, False, {"finite": True, "aperture": "objectNA", "immersed": True})
+               for i in range(8 if quick else 80)]
     fut_rand = [pool.submit(record_random, t) for t in rtasks]
     fut_samp = [pool.submit(record_sample, c.__name__) for c in G.sample_classes()]
     tpool = ThreadPoolExecutor(max_workers=1)
